@@ -1,6 +1,8 @@
 package engine
 
 import (
+	"bytes"
+
 	"github.com/cockroachdb/pebble"
 	"github.com/youzan/ZanRedisDB/common"
 )
@@ -59,6 +61,10 @@ func (it *pebbleIterator) Seek(key []byte) {
 }
 
 func (it *pebbleIterator) SeekForPrev(key []byte) {
+	// position at the last key <= key as the other engines do; SeekLT alone skips a key equal to key
+	if it.Iterator.SeekGE(key) && bytes.Compare(it.Iterator.Key(), key) == 0 {
+		return
+	}
 	it.Iterator.SeekLT(key)
 }
 
